@@ -7,6 +7,7 @@ pub mod sym;
 pub mod util;
 pub mod big;
 
+pub mod c06;
 pub mod c07;
 
 #[rustfmt::skip]
